@@ -246,7 +246,7 @@ func init() {
 	properties["C02"] = lapackProp("C02", "C03", "Does not decide backward stability, factor structure, blocked/unblocked agreement, or that the enforced minimum workspace is itself enough for the computation.")
 	properties["C03"] = lapackProp("C03", "C02", "Does not decide orthogonality, residual identities, ordering of values or convergence.")
 	properties["C07"] = &property{
-		explanation: "Decides, for all 281 exported BLAS and LAPACK entry points and every path through their prologues: ARGS.order (no argument-check panic is reachable after an operand may have been written), ARGS.lencheck (every use of a slice parameter is preceded on every path by a branch on its length — the only thing between a short slice and an out-of-bounds kernel access), ARGS.complete (every int/flag/slice parameter occurs in an argument check; exceptions are a frozen table with reasons), ARGS.optional (an operand validated only under a flag is used only under it), ARGS.query; ARGS.arms (the positive- and negative-increment arms of a length check bound the same extent with the same strictness) and ARGS.strict (len(v) is compared with <= against a largest-index extent and with < against an element-count extent, so a slice one element short is rejected and an exactly-minimal one accepted; 603 comparisons); WORKSIZE.querylen (no operand length panic is reachable in a workspace query, which the drivers issue with nil operands); MAT.order — in the 179 exported pointer-receiver methods of mat that validate shapes, none of the 297 shape/argument panics is reachable after the receiver was sized (reuseAs*) or written (zeroing stores are invalidation; element/status checks are data checks); TWIN.generated (the prologues of the untested float32/complex64 routines are the images of the tested ones) and TWIN.bounds (the bounds-checked and unchecked mat element accessors panic under the same conditions); STRIDE over BLAS, LAPACK and mat including STRIDE.len (a length check of operand p is written in p's own increment); ASM.window — in each of the 149 loops of the 56 assembly kernels every memory access through an induction register stays inside the bytes that iteration advances over (an over-wide load in a scalar tail is an out-of-bounds read on the last element); ASM.tail — outside the loops a block touches only the bytes it advances over, or one element in the final tail; ASM.units — a byte quantity is never scaled by SIZE again. Does NOT decide that the loop guards of the assembly leave enough elements, nor that each Go-level check uses the right extent polynomial.",
+		explanation: "Decides, for all 281 exported BLAS and LAPACK entry points and every path through their prologues: ARGS.order (no argument-check panic is reachable after an operand may have been written), ARGS.lencheck (every use of a slice parameter is preceded on every path by a branch on its length — the only thing between a short slice and an out-of-bounds kernel access), ARGS.complete (every int/flag/slice parameter occurs in an argument check; exceptions are a frozen table with reasons), ARGS.optional (an operand validated only under a flag is used only under it), ARGS.query; ARGS.arms (the positive- and negative-increment arms of a length check bound the same extent with the same strictness) and ARGS.strict (len(v) is compared with <= against a largest-index extent and with < against an element-count extent, so a slice one element short is rejected and an exactly-minimal one accepted; 603 comparisons); ARGS.fullrow (none of the 292 polynomial matrix extents is a pure multiple of the leading dimension, which would reject an exactly-minimal column-sliced view); WORKSIZE.querylen (no operand length panic is reachable in a workspace query, which the drivers issue with nil operands); MAT.order — in the 179 exported pointer-receiver methods of mat that validate shapes, none of the 297 shape/argument panics is reachable after the receiver was sized (reuseAs*) or written (zeroing stores are invalidation; element/status checks are data checks); TWIN.generated (the prologues of the untested float32/complex64 routines are the images of the tested ones) and TWIN.bounds (the bounds-checked and unchecked mat element accessors panic under the same conditions); STRIDE over BLAS, LAPACK and mat including STRIDE.len (a length check of operand p is written in p's own increment); ASM.window — in each of the 149 loops of the 56 assembly kernels every memory access through an induction register stays inside the bytes that iteration advances over (an over-wide load in a scalar tail is an out-of-bounds read on the last element); ASM.tail — outside the loops a block touches only the bytes it advances over, or one element in the final tail; ASM.units — a byte quantity is never scaled by SIZE again. Does NOT decide that the loop guards of the assembly leave enough elements, nor that each Go-level check uses the right extent polynomial.",
 		assumptions: commonAssumptions,
 		run: func(tier string, res *core.Result) {
 			a := args.Run(def, core.Pkgs("./blas/gonum"), blasArgs)
@@ -278,6 +278,7 @@ func init() {
 			ar := worksize.RunArms(def, core.Pkgs(append(append([]string{"./mat"}, blasPkgs...), lapackPkgs...)...))
 			ar.Floor("two_arm_length_checks", 100)
 			ar.Floor("strided_length_comparisons", 450)
+			ar.Floor("matrix_extent_polynomials", 230)
 			res.Merge(ar)
 			ws := worksize.Run(def, core.Pkgs("./lapack/gonum"), worksizeExempt)
 			ws.Floor("query_mode_prologues", 25)
